@@ -96,6 +96,9 @@ func (k *c06) RunCase(c *core.Ctx, i int) {
 	// ties: duplicate some bookings onto sibling accounts with identical amounts
 	k.addTies(r, j, info)
 	files := j.SplitTree(r, 3, 3)
+	zr := c.Rng(i, "zero-total")
+	zj, zu := zeroTotalPortfolio(zr)
+	files["zero.knut"], files["zero.yaml"] = []byte(zj), []byte(zu)
 	dir := c.CaseDir(i)
 	defer os.RemoveAll(dir)
 	if err := core.WriteFiles(dir, files); err != nil {
@@ -134,6 +137,10 @@ func (k *c06) RunCase(c *core.Ctx, i int) {
 		{"transcode-many-commodities", []string{"transcode", "-v", "CHF", "many.knut"}},
 		{"infer", []string{"infer", "-t", "main.knut", "target.knut"}},
 		{"register", []string{"register", "--to", to, "main.knut"}},
+		{"weights-zero-total-universe", []string{"portfolio", "weights", "-v", "CHF", "--universe", "zero.yaml", "--to", "2020-03-01", "--color=false", "zero.knut"}},
+		{"weights-zero-total-universe-csv", []string{"portfolio", "weights", "-v", "CHF", "--universe", "zero.yaml", "--to", "2020-03-01", "--months", "--csv", "zero.knut"}},
+		{"weights-zero-total", []string{"portfolio", "weights", "-v", "CHF", "--to", "2020-03-01", "--color=false", "-m", "1", "zero.knut"}},
+		{"returns-zero-total", []string{"portfolio", "returns", "-v", "CHF", "--to", "2020-03-01", "--weeks", "zero.knut"}},
 		{"import-revolut2-two-currencies", []string{"import", "revolut2", "--account", "Assets:Revolut", "--fee", "Expenses:Fees", "rev2.csv"}},
 	}
 	imp := k.importers[i%len(k.importers)]
@@ -252,6 +259,53 @@ func manyCommodities(r *rand.Rand) string {
 		}
 	}
 	return b.String()
+}
+
+// zeroTotalPortfolio builds a portfolio whose valued asset/liability total is
+// exactly zero although positions are held (longs, shorts, a loan), and a
+// universe that puts longs and shorts into common classes: every weight is a
+// division by zero (+Inf, -Inf, and NaN where both meet in a class), which must
+// still be ordered and printed the same way on every run.
+func zeroTotalPortfolio(r *rand.Rand) (journal, universe string) {
+	var b strings.Builder
+	b.WriteString("2020-01-01 open Assets:Broker:Long\n2020-01-01 open Assets:Broker:Short\n2020-01-01 open Assets:Bank\n2020-01-01 open Liabilities:Loan\n2020-01-01 open Equity:Opening\n")
+	n := 3 + r.Intn(5)
+	total := 0
+	classes := map[string][]string{}
+	classNames := []string{"Equities:US", "Equities:EU", "Bonds", "Alternatives:Gold", "Alternatives:Crypto"}
+	for i := 0; i < n; i++ {
+		price := 1 + r.Intn(50)
+		qty := 1 + r.Intn(40)
+		name := fmt.Sprintf("P%d", i)
+		fmt.Fprintf(&b, "2020-01-01 price %s %d CHF\n", name, price)
+		acc := "Assets:Broker:Long"
+		if i%2 == 1 {
+			acc, qty = "Assets:Broker:Short", -qty
+		}
+		total += price * qty
+		fmt.Fprintf(&b, "\n2020-01-0%d \"position\"\nEquity:Opening %s %d %s\n\n", 2+r.Intn(3), acc, qty, name)
+		cl := classNames[r.Intn(len(classNames))]
+		if i < 2 {
+			cl = classNames[0] // the first long and the first short share a class
+		}
+		classes[cl] = append(classes[cl], name)
+	}
+	// cash and a loan bring the total to exactly zero
+	cash := 1 + r.Intn(500)
+	fmt.Fprintf(&b, "2020-01-05 \"cash\"\nEquity:Opening Assets:Bank %d CHF\n\n", cash)
+	fmt.Fprintf(&b, "2020-01-05 \"loan\"\nEquity:Opening Liabilities:Loan %d CHF\n\n", -(total + cash))
+	b.WriteString("2020-02-20 price ZZZ 1 YYY\n")
+	classes["Cash"] = []string{"CHF"}
+	var names []string
+	for cl := range classes {
+		names = append(names, cl)
+	}
+	sort.Strings(names)
+	var u strings.Builder
+	for _, cl := range names {
+		fmt.Fprintf(&u, "%s: [%s]\n", cl, strings.Join(classes[cl], ", "))
+	}
+	return b.String(), u.String()
 }
 
 func c06Files(files map[string][]byte, target, rev string) map[string][]byte {
